@@ -22,6 +22,16 @@ def main():
     ctx = common.Ctx(a.prop, a.tier, seed, getattr(mod, "LEVEL", "proof"))
     if a.replay:
         sys.exit(mod.replay(ctx, a.replay) if hasattr(mod, "replay") else 2)
+    import signal
+
+    class CheckTimeout(Exception):
+        pass
+
+    def on_alarm(signum, frame):
+        raise CheckTimeout(f"check did not finish within {limit} s (deadlock or hang)")
+    limit = int(os.environ.get("VERIF_TIMEOUT", "1500" if a.tier == "quick" else "5400"))
+    signal.signal(signal.SIGALRM, on_alarm)
+    signal.alarm(limit)
     try:
         mod.run(ctx)
     except SystemExit:
